@@ -160,3 +160,59 @@ class parse_raw:
 
     def ensures(signature, result):
         return result.r == int.from_bytes(signature[:32], 'big') and result.s == int.from_bytes(signature[32:], 'big')
+
+
+def _der_int(v):
+    b = v.to_bytes(max((v.bit_length() + 7) // 8, 1), 'big')
+    if b[0] & 0x80:
+        b = b'\x00' + b
+    return b'\x02' + bytes([len(b)]) + b
+
+
+def _der_sig(r, s, hash_type=1):
+    body = _der_int(r) + _der_int(s)
+    return b'\x30' + bytes([len(body)]) + body + bytes([hash_type])
+
+
+@contract('bitcoinlib.keys.Signature.parse_bytes', case='der-native', props=('C13',))
+class parse_der_native:
+    """DER + hash type signatures (native evaluation only: the DER decoder is third-party code outside the modelled subset): a well-formed
+    encoding of (r, s) with 1 <= r, s < n parses to exactly that r, s and hash type; encodings of r or s that are 0, >= n, or wider than 256
+    bits are refused - never re-interpreted as some other pair."""
+    params = {'r': Int(0, 2 ** 300), 's': Int(0, 2 ** 300), 'hash_type': Int(1, 0x83)}
+    native_only = True
+    bounded = 'r, s drawn from {valid range, 0, n, n + small, 2^256 + valid, valid + (valid << 256)}; DER built by an independent encoder'
+
+    def build(r, s, hash_type):
+        from bitcoinlib.keys import Signature
+
+        def run():
+            raw = _der_sig(r, s, hash_type)
+            if len(raw) <= 64:
+                return 'short'          # Signature.parse_bytes only takes DER input longer than 64 bytes (shorter valid encodings are rare; not part of this case)
+            try:
+                sg = Signature.parse_bytes(raw)
+                return (sg.r, sg.s, sg.hash_type)
+            except Exception as e:
+                return 'refused'
+        return run, [], {}
+
+    def ensures(r, s, hash_type, result):
+        if result == 'short':
+            return True
+        if 1 <= r < N and 1 <= s < N:
+            return result == (r, s, hash_type)
+        return result == 'refused'
+
+    def sample(rng):
+        def pick():
+            k = rng.random()
+            good = rng.randrange(2 ** 200, N)
+            if k < 0.5:
+                return good
+            return rng.choice([0, N, N + rng.randrange(1, 1000), 2 ** 256 + good, good + (rng.randrange(1, N) << 256), good + (good << 256), 2 ** 256 - 1])
+        r, s = pick(), pick()
+        if rng.random() < 0.3:
+            r = rng.randrange(2 ** 200, N)
+            s = rng.randrange(2 ** 200, N) + (r << 256)        # high part of s only sets bits that r has
+        return {'r': r, 's': s, 'hash_type': rng.choice([1, 1, 2, 3, 0x81])}
